@@ -4,6 +4,7 @@ from vmon.refs import b58 as RB, bech32 as R32, ec as REC, keytext as KT
 from vmon.gen import nets as NETS
 
 PROPERTY = "C08"
+PRELOAD_NETWORK_ORDERS = [["btc", "xtn", "ltc", "bch", "grs", "doge", "dash", "btg"], ["btg", "grs", "bch", "doge", "ltc", "xtn", "btc"]]
 LEVEL = "exploration"
 TECHNIQUE = ("runtime monitor on address.for_script / parse.address / contract.info_for_script / for_info / key.address on every "
              "usable network; expected texts and scripts from an independent Base58Check/Bech32/template model; all ordered "
